@@ -268,11 +268,99 @@ def run(ctx, budget=1.0):
                for _ in range(25 if ctx.quick else 300)]
     with impl_guard(res, "solver", promise=True):
         solver_budget(res, rng, graphs)
+    with impl_guard(res, "graph-path", promise=True):
+        graph_path(res, rng, 120 if ctx.quick else 1500)
     res.exhaustive = not res.extra.get("streams_aborted")
     res.notes.append(f"exhaustive over all stabilizer states n<={nmax_ex} (x{regs} gauges) and all graphs on <= {4 if ctx.quick else 5} vertices (all vertex orders n<=3)")
     res.extra["driver_lines"] = drv.n_lines
     drv.close()
     return res
+
+
+def graph_path(res, rng, count):
+    """the *graph* entry points: `height_dict(graph=g)`, `height_max(graph=g)` on networkx objects (node names other than 0..n-1, insertion
+    order different from the sorted order — the library's convention is: qubit k = k-th node of `g.nodes`), and `emitter_sorted` of
+    relabel_module (a list of adjacency matrices sorted by the emitter number = height maximum).  Oracle: GF(2) rank of the adjacency block
+    joining the two sides of every cut, computed here; cross-check with `height_func_list` on the library's own tableau of the same graph and
+    with the deterministic solver's emitter count.  Graphs with >= 6 vertices are included because real rank and GF(2) rank first differ there."""
+    import networkx as nx
+    from graphiq.backends.stabilizer.functions import height as hf
+    from graphiq.backends.stabilizer.functions.rep_conversion import get_stabilizer_tableau_from_graph
+    from graphiq.utils.relabel_module import emitter_sorted
+
+    def cut_ranks(a):
+        n = len(a)
+        return [su.rank_gf2(a[: k + 1, k + 1:]) if k + 1 < n else 0 for k in range(n)]
+
+    for i in range(count):
+        n = rng.randrange(2, 9) if i % 3 else rng.randrange(6, 9)
+        a = nx.to_numpy_array(nx.gnp_random_graph(n, rng.uniform(0.2, 0.9), seed=rng.getrandbits(30))).astype(int)
+        order = rng.sample(range(n), n) if rng.random() < 0.7 else list(range(n))
+        off = rng.choice([0, 0, 1, 7])
+        g = nx.Graph()
+        g.add_nodes_from(k + off for k in order)
+        g.add_edges_from((u + off, v + off) for u in range(n) for v in range(u + 1, n) if a[u, v])
+        own = nx.to_numpy_array(g).astype(int)          # adjacency in the graph's own node order
+        want = cut_ranks(own)
+        inp = {"case": "graph-object", "n": n, "adjacency": "".join(str(int(v)) for v in a.flatten()), "node_order": [k + off for k in order]}
+        res.evaluations += 1
+        res.count("branches", "graph-path:" + ("scrambled" if order != list(range(n)) else "sorted") + (":offset" if off else ""))
+        try:
+            hd = hf.height_dict(graph=g)
+            hm = int(hf.height_max(graph=g))
+            st = get_stabilizer_tableau_from_graph(g)
+            t = np.asarray(st.table).astype(int)
+            hl = [int(v) for v in hf.height_func_list(t[:, :n].copy(), t[:, n:].copy())]
+        except Exception as e:  # noqa: BLE001
+            res.violation(f"height:graph:raises:{err_class(e)}", "height function raised on a graph object", input=inp)
+            continue
+        got = [int(hd[k]) for k in sorted(hd)][1:]
+        if got != want or sorted(hd) != list(range(-1, n)):
+            res.violation("height_dict:graph:not-adjacency-rank", f"height_dict(graph=g) gives {got}, GF(2) cut ranks of g in its own node order are {want}", input=inp)
+        if hm != max([0] + want):
+            res.violation("height_max:graph:wrong", f"height_max(graph=g) = {hm}, maximum cut rank = {max([0] + want)}", input=inp)
+        if hl != want:
+            res.violation("height:graph-tableau:not-adjacency-rank", f"height_func_list on the library's tableau of g gives {hl}, cut ranks {want}", input=inp)
+        if any(want):
+            res.nontrivial("graph-path", inp["adjacency"], tuple(inp["node_order"]))
+    # emitter_sorted: every entry carries the height maximum of its matrix (GF(2)), and the list is sorted by it
+    def odd_block_graph(n):
+        # a cut whose adjacency block contains J - I (3x3): rank 3 over the reals, rank 2 over GF(2)
+        a = nx.to_numpy_array(nx.gnp_random_graph(n, rng.uniform(0.1, 0.6), seed=rng.getrandbits(30))).astype(int)
+        k = rng.randrange(2, n - 3)
+        left, right = rng.sample(range(k + 1), 3), rng.sample(range(k + 1, n), 3)
+        for i, u in enumerate(left):
+            for j, v in enumerate(right):
+                a[u, v] = a[v, u] = int(i != j)
+        return a
+
+    ring6 = nx.to_numpy_array(nx.cycle_graph(6)).astype(int)[np.ix_([0, 2, 4, 1, 3, 5], [0, 2, 4, 1, 3, 5])]
+    for i in range(max(12, count // 2)):
+        n = rng.randrange(6, 9) if i % 4 else rng.randrange(3, 7)
+        adjs = []
+        base = odd_block_graph(n) if (i % 3 == 0 and n >= 6) else nx.to_numpy_array(nx.gnp_random_graph(n, rng.uniform(0.3, 0.8), seed=rng.getrandbits(30))).astype(int)
+        if i == 1:
+            base, n = ring6, 6
+            adjs.append(ring6)
+        elif i % 3 == 0:
+            adjs.append(base)
+        for _ in range(rng.randrange(2, 7)):
+            p = rng.sample(range(n), n)
+            adjs.append(base[np.ix_(p, p)])
+        inp = {"case": "emitter_sorted", "n": n, "adjacencies": ["".join(str(int(v)) for v in x.flatten()) for x in adjs]}
+        res.evaluations += 1
+        try:
+            out = emitter_sorted(np.array(adjs))
+        except Exception as e:  # noqa: BLE001
+            res.violation(f"emitter_sorted:raises:{err_class(e)}", "emitter_sorted raised on a list of adjacency matrices", input=inp)
+            continue
+        nums = [int(k) for _, k in out]
+        true = [max([0] + cut_ranks(np.asarray(m).astype(int))) for m, _ in out]
+        if nums != true:
+            res.violation("emitter_sorted:wrong-emitter-number", f"emitter_sorted reports {nums}, height maxima (GF(2) cut ranks) are {true}", input=inp)
+        elif nums != sorted(nums) or len(out) != len(adjs):
+            res.violation("emitter_sorted:not-sorted", f"emitter_sorted result {nums} is not sorted / complete", input=inp)
+        res.count("branches", "graph-path:emitter_sorted")
 
 
 def search(ctx, res, proof_broken):
